@@ -11,7 +11,8 @@ from datetime import datetime, timedelta, timezone
 from fractions import Fraction
 
 sys.path.insert(0, os.path.dirname(os.path.abspath(__file__)))
-from lib import Check, guarded, reslit, zlit, blit, listlit   # noqa: E402
+from lib import Check, guarded, reslit, zlit, blit, listlit, REPO   # noqa: E402
+import gen_ring   # noqa: E402  (tools/: translator tie for is_counter_clockwise / GeoPolygon.__init__)
 
 logging.disable(logging.CRITICAL)
 
@@ -536,6 +537,8 @@ def roundtrip_violations(spec, obj, ups):
 def main():
     ck = Check('C14')
     ck.build_theories(['theories/Props/C14.vo', 'theories/Corr/GeoJsonK.vo'])
+    rep = gen_ring.main(REPO, os.path.join(ck.rundir, 'RingGen.v'))   # the shoelace loop and the outline normalisation regenerated ...
+    ck.gen('RingGen.v', rep, 'RingGenEq.v')                           # ... proved equal to RingM.is_ccw / norm_ring (mk_polygon, mk_hole) for all rings
     ck.props('Props/C14.v')
     rng = ck.rng
     quick = ck.tier == 'quick'
